@@ -10,6 +10,6 @@ def calc_ast_hash(a: ast.AST) -> str:
     including the input datasets
     """
 
-    b = bytearray()
-    b.extend(map(ord, ast.dump(a)))
-    return hashlib.md5(b).hexdigest()
+    # utf-8: the dump may contain any character (and for plain ascii text the bytes are the
+    # code points, as before)
+    return hashlib.md5(ast.dump(a).encode("utf-8", "surrogatepass")).hexdigest()
